@@ -1514,50 +1514,97 @@ Proof.
     apply negb_false_iff in Ew. exact Ew.
 Qed.
 
-Lemma r2d_go_spec : forall stop0 f idx any s, St2 s -> idx + S f = length (w_tables s) ->
-  exists last any' s', r_go stop0 (S f) idx any s = Ok (last, any') s' /\ St2 s' /\ r2d_shr s s' /\
-    idx <= last < length (w_tables s) /\ (stop0 = false -> S last = length (w_tables s)) /\
+(** The loop under an arbitrary clock ([clock idx] = "the budget has expired when table [idx] has just been
+    processed"): it processes the tables [idx..last]; [last] is the final table, or a table after which the
+    clock had expired while some table had had work. *)
+Lemma r2d_go_spec_clock : forall clock f idx any s, St2 s -> idx + S f = length (w_tables s) ->
+  exists last any' s', r_go_clock clock (S f) idx any s = Ok (last, any') s' /\ St2 s' /\ r2d_shr s s' /\
+    idx <= last < length (w_tables s) /\
+    (S last = length (w_tables s) \/ (any' = true /\ clock last = true)) /\
     (forall j, j < idx -> nth_error (w_tables s') j = nth_error (w_tables s) j) /\
     (forall j t', idx <= j <= last -> nth_error (w_tables s') j = Some t' -> t_rels t' <> [] -> t_len t' = 0 -> t_free t' = true).
 Proof.
-  intros stop0 f. induction f as [|f IH]; intros idx any s HS Hlen.
+  intros clock f. induction f as [|f IH]; intros idx any s HS Hlen.
   - destruct (nth_error (w_tables s) idx) as [t|] eqn:Ht; [|apply nth_error_None in Ht; lia].
-    cbn [r_go]. rewrite (sa_bind_ok (sa_getT_eq _ _ _ Ht)).
+    cbn [r_go_clock]. rewrite (sa_bind_ok (sa_getT_eq _ _ _ Ht)).
     unfold bind at 1, get at 1. cbv beta iota.
     destruct (r2d_any1_spec idx any t s HS Ht) as (b & s1 & E1 & P1 & P2 & P3 & (t' & P4 & P5)).
     rewrite (sa_bind_ok E1).
-    exists idx, b, s1. split; [destruct (b && stop0)%bool; reflexivity|]. split; [exact P1|]. split; [exact P2|].
-    split; [lia|]. split; [intros _; lia|]. split.
+    exists idx, b, s1. split; [destruct (b && clock idx)%bool; reflexivity|]. split; [exact P1|]. split; [exact P2|].
+    split; [lia|]. split; [left; lia|]. split.
     + intros j Hj. apply P3. lia.
     + intros j tj Hj Ej. assert (j = idx) by lia. subst j. rewrite P4 in Ej. injection Ej as <-. exact P5.
   - destruct (nth_error (w_tables s) idx) as [t|] eqn:Ht; [|apply nth_error_None in Ht; lia].
-    change (r_go stop0 (S (S f)) idx any) with
+    change (r_go_clock clock (S (S f)) idx any) with
       (t <- getT idx ;; s <- get ;; any1 <- r_any1 idx any t s ;;
-       if (any1 && stop0)%bool then ret (idx, any1) else r_go stop0 (S f) (S idx) any1).
+       if (any1 && clock idx)%bool then ret (idx, any1) else r_go_clock clock (S f) (S idx) any1).
     rewrite (sa_bind_ok (sa_getT_eq _ _ _ Ht)).
     unfold bind at 1, get at 1. cbv beta iota.
     destruct (r2d_any1_spec idx any t s HS Ht) as (b & s1 & E1 & P1 & P2 & P3 & (t' & P4 & P5)).
     rewrite (sa_bind_ok E1).
     assert (L1 : length (w_tables s1) = length (w_tables s)) by apply P2.
-    destruct (b && stop0)%bool eqn:Hstop.
+    destruct (b && clock idx)%bool eqn:Hstop.
     + exists idx, b, s1. split; [reflexivity|]. split; [exact P1|]. split; [exact P2|]. split; [lia|].
-      split; [intros Hs; apply andb_true_iff in Hstop; destruct Hstop; congruence|]. split.
+      split; [right; apply andb_true_iff in Hstop; exact Hstop|]. split.
       * intros j Hj. apply P3. lia.
       * intros j tj Hj Ej. assert (j = idx) by lia. subst j. rewrite P4 in Ej. injection Ej as <-. exact P5.
     + destruct (IH (S idx) b s1 P1) as (last & any' & s' & E & Q1 & Q2 & Q3 & Q4 & Q5 & Q6); [lia|].
       exists last, any', s'. split; [exact E|]. split; [exact Q1|]. split; [apply (r2d_shr_trans _ _ _ P2 Q2)|].
-      split; [lia|]. split; [intros Hs; rewrite <- L1; apply Q4; exact Hs|]. split.
+      split; [lia|]. split; [destruct Q4 as [Hend|Hc]; [left; rewrite <- L1; exact Hend|right; exact Hc]|]. split.
       * intros j Hj. rewrite Q5 by lia. apply P3. lia.
       * intros j tj Hj Ej. destruct (Nat.eq_dec j idx) as [->|Hne].
         -- rewrite Q5, P4 in Ej by lia. injection Ej as <-. exact P5.
         -- apply (Q6 j tj); [lia|exact Ej].
 Qed.
 
-(** D_shrink_spec. Shrink (zero or unlimited time budget) never fails, keeps [St2] (and the additional clause
-    [r2d_KeysLive]), changes no entity's [live]/[val]/[tgt], neither pool, index, flags, lock, observers, filters
-    nor queries; a table keeps archetype, layout, length, relation label; the only tables whose free flag
-    changes are empty, active relation tables, which become free (and, [St2] holding afterwards, are gone from
-    lookups and cache); with an unlimited budget EVERY empty relation table is free afterwards. *)
+(** The two extreme budgets, as an instance. *)
+Lemma r2d_go_spec : forall stop0 f idx any s, St2 s -> idx + S f = length (w_tables s) ->
+  exists last any' s', r_go stop0 (S f) idx any s = Ok (last, any') s' /\ St2 s' /\ r2d_shr s s' /\
+    idx <= last < length (w_tables s) /\ (stop0 = false -> S last = length (w_tables s)) /\
+    (forall j, j < idx -> nth_error (w_tables s') j = nth_error (w_tables s) j) /\
+    (forall j t', idx <= j <= last -> nth_error (w_tables s') j = Some t' -> t_rels t' <> [] -> t_len t' = 0 -> t_free t' = true).
+Proof.
+  intros stop0 f idx any s HS Hlen.
+  destruct (r2d_go_spec_clock (fun _ => stop0) f idx any s HS Hlen) as (last & any' & s' & E & Q1 & Q2 & Q3 & Q4 & Q5 & Q6).
+  exists last, any', s'. split; [exact E|]. split; [exact Q1|]. split; [exact Q2|]. split; [exact Q3|].
+  split; [|split; [exact Q5|exact Q6]].
+  intros Hs. destruct Q4 as [Hend|(_ & Hc)]; [exact Hend|congruence].
+Qed.
+
+(** D_shrink_spec_clock. Shrink under EVERY clock (hence every time budget) never fails, keeps [St2] (and the
+    additional clause [r2d_KeysLive]), changes no entity's [live]/[val]/[tgt], neither pool, index, flags, lock,
+    observers, filters nor queries; a table keeps archetype, layout, length, relation label; the only tables whose
+    free flag changes are empty, active relation tables, which become free (and, [St2] holding afterwards, are
+    gone from lookups and cache); the walk processes the tables [0..last], where [last] is the final table or one
+    after which the clock had expired, and EVERY empty relation table among them is free afterwards. *)
+Theorem D_shrink_spec_clock : forall s clock, St2 s ->
+  exists b s' last, w_shrink_clock clock s = Ok b s' /\ St2 s' /\ content_same s s' /\ r2d_tgt_same s s' /\
+    w_pool s' = w_pool s /\ w_index s' = w_index s /\ w_istarget s' = w_istarget s /\ side_same s s' /\ frame_user s s' /\
+    length (w_tables s') = length (w_tables s) /\
+    (forall j t, nth_error (w_tables s) j = Some t -> exists t', nth_error (w_tables s') j = Some t' /\ r2d_tfree t t') /\
+    last < length (w_tables s) /\ (S last = length (w_tables s) \/ clock last = true) /\
+    (forall j t', j <= last -> nth_error (w_tables s') j = Some t' -> t_rels t' <> [] -> t_len t' = 0 -> t_free t' = true) /\
+    (r2d_KeysLive s -> r2d_KeysLive s').
+Proof.
+  intros s clock HS. pose proof HS as (H & _).
+  destruct (wf_arch0 _ H) as (_ & _ & _ & t0 & Et0 & _).
+  assert (HL : exists f, length (w_tables s) = S f).
+  { destruct (w_tables s) as [|x l]; [discriminate Et0|]. exists (length l). reflexivity. }
+  destruct HL as (f & HL).
+  destruct (r2d_go_spec_clock clock f 0 false s HS) as (last & any' & s' & E & Q1 & Q2 & Q3 & Q4 & Q5 & Q6); [rewrite HL; reflexivity|].
+  rewrite <- HL in E.
+  eexists _, s', last. split; [rewrite r_shrink_eq_clock, E; reflexivity|]. split; [exact Q1|].
+  pose proof Q2 as (A1 & A2 & A3 & A4 & A5 & A6 & A7 & A8 & A9 & A10 & A11 & A12).
+  split; [exact A1|]. split; [exact A2|]. split; [exact A3|]. split; [exact A4|]. split; [exact A5|].
+  split; [exact A7|]. split; [exact A8|]. split; [exact A9|]. split; [exact A11|].
+  split; [lia|]. split; [destruct Q4 as [Hend|(_ & Hc)]; [left; exact Hend|right; exact Hc]|]. split.
+  - intros j t' Hj Ej. apply (Q6 j t'); [lia|exact Ej].
+  - intros HK aid a' k l' Ha Hk. destruct (A12 aid a' k l' Ha Hk) as (a & l & Ha0 & Hk0).
+    destruct (HK aid a k l Ha0 Hk0) as [H0|(g & Hg)]; [left; exact H0|right]. exists g. rewrite (proj1 (A1 (k, g))). exact Hg.
+Qed.
+
+(** D_shrink_spec (zero or unlimited time budget): the instance at the constant clocks; with an unlimited
+    budget EVERY empty relation table is free afterwards. *)
 Theorem D_shrink_spec : forall s stop0, St2 s ->
   exists b s', w_shrink_core stop0 s = Ok b s' /\ St2 s' /\ content_same s s' /\ r2d_tgt_same s s' /\
     w_pool s' = w_pool s /\ w_index s' = w_index s /\ w_istarget s' = w_istarget s /\ side_same s s' /\ frame_user s s' /\
@@ -1566,21 +1613,12 @@ Theorem D_shrink_spec : forall s stop0, St2 s ->
     (stop0 = false -> forall j t', nth_error (w_tables s') j = Some t' -> t_rels t' <> [] -> t_len t' = 0 -> t_free t' = true) /\
     (r2d_KeysLive s -> r2d_KeysLive s').
 Proof.
-  intros s stop0 HS. pose proof HS as (H & _).
-  destruct (wf_arch0 _ H) as (_ & _ & _ & t0 & Et0 & _).
-  assert (HL : exists f, length (w_tables s) = S f).
-  { destruct (w_tables s) as [|x l]; [discriminate Et0|]. exists (length l). reflexivity. }
-  destruct HL as (f & HL).
-  destruct (r2d_go_spec stop0 f 0 false s HS) as (last & any' & s' & E & Q1 & Q2 & Q3 & Q4 & Q5 & Q6); [rewrite HL; reflexivity|].
-  rewrite <- HL in E.
-  eexists _, s'. split; [rewrite r_shrink_eq, E; reflexivity|]. split; [exact Q1|].
-  pose proof Q2 as (A1 & A2 & A3 & A4 & A5 & A6 & A7 & A8 & A9 & A10 & A11 & A12).
-  split; [exact A1|]. split; [exact A2|]. split; [exact A3|]. split; [exact A4|]. split; [exact A5|].
-  split; [exact A7|]. split; [exact A8|]. split; [exact A9|]. split; [exact A11|]. split.
-  - intros Hs j t' Ej. apply (Q6 j t'); [|exact Ej]. specialize (Q4 Hs).
-    assert (j < length (w_tables s')) by (eapply sa_nth_error_lt; exact Ej). lia.
-  - intros HK aid a' k l' Ha Hk. destruct (A12 aid a' k l' Ha Hk) as (a & l & Ha0 & Hk0).
-    destruct (HK aid a k l Ha0 Hk0) as [H0|(g & Hg)]; [left; exact H0|right]. exists g. rewrite (proj1 (A1 (k, g))). exact Hg.
+  intros s stop0 HS.
+  destruct (D_shrink_spec_clock s (fun _ => stop0) HS) as (b & s' & last & E & B1 & B2 & B3 & B4 & B5 & B6 & B7 & B8 & B9 & B10 & B11 & B12 & B13 & B14).
+  exists b, s'. split; [exact E|]. repeat (split; [assumption|]). split; [|exact B14].
+  intros Hs j t' Ej. apply (B13 j t'); [|exact Ej].
+  destruct B12 as [Hend|Hc]; [|congruence].
+  assert (j < length (w_tables s')) by (eapply sa_nth_error_lt; exact Ej). lia.
 Qed.
 
 (** The exported operation: rejected without effect on a locked world, [D_shrink_spec] otherwise. *)
@@ -1593,7 +1631,18 @@ Theorem D_shrink_spec_w : forall s stop0, St2 s -> is_locked s = false ->
     (r2d_KeysLive s -> r2d_KeysLive s').
 Proof. intros s stop0 HS Hl. rewrite (shrink_unlocked_eq s stop0 Hl). apply D_shrink_spec. exact HS. Qed.
 
-Definition r2d_D1_all := (D_remove_from_targets, r2d_free_step, r2d_any1_spec, r2d_go_spec, D_shrink_spec, D_shrink_spec_w, shrink_locked_rejected).
+Theorem D_shrink_spec_clock_w : forall s clock, St2 s -> is_locked s = false ->
+  exists b s' last, w_shrink_timed clock s = Ok b s' /\ St2 s' /\ content_same s s' /\ r2d_tgt_same s s' /\
+    w_pool s' = w_pool s /\ w_index s' = w_index s /\ w_istarget s' = w_istarget s /\ side_same s s' /\ frame_user s s' /\
+    length (w_tables s') = length (w_tables s) /\
+    (forall j t, nth_error (w_tables s) j = Some t -> exists t', nth_error (w_tables s') j = Some t' /\ r2d_tfree t t') /\
+    last < length (w_tables s) /\ (S last = length (w_tables s) \/ clock last = true) /\
+    (forall j t', j <= last -> nth_error (w_tables s') j = Some t' -> t_rels t' <> [] -> t_len t' = 0 -> t_free t' = true) /\
+    (r2d_KeysLive s -> r2d_KeysLive s').
+Proof. intros s clock HS Hl. rewrite (shrink_unlocked_eq_clock s clock Hl). apply D_shrink_spec_clock. exact HS. Qed.
+
+Definition r2d_D1_all := (D_remove_from_targets, r2d_free_step, r2d_any1_spec, r2d_go_spec, D_shrink_spec, D_shrink_spec_w, shrink_locked_rejected,
+  r2d_go_spec_clock, D_shrink_spec_clock, D_shrink_spec_clock_w, shrink_locked_rejected_clock).
 
 (* ================================================================================================ *)
 (** * Package D2: Reset *)
@@ -2483,6 +2532,28 @@ Proof.
   split.
   - destruct (P4 2 t Ht) as (t' & Ht' & (_ & _ & _ & M4 & M5 & _)). exists t'. split; [exact Ht'|].
     apply (P5 eq_refl 2 t' Ht'); [rewrite M5, Hr; discriminate|rewrite M4; exact Hl].
+  - split; [rewrite (proj1 (P2 (7, 0%N))); exact L7|rewrite (P3 (7, 0%N) 3); exact T7].
+Qed.
+
+(** The same by the any-clock theorem: under EVERY clock that has not expired before table 2 has been processed
+    (e.g. any budget that lasts for three tables, with any behaviour afterwards), the empty relation table 2 is
+    freed; the invariants and the content are kept under every clock whatsoever. *)
+Example r2d_ex_shrink_clock_by_theorem : forall clock : nat -> bool,
+  exists b s', w_shrink_timed clock r2d_ex_world = Ok b s' /\ St2 s' /\ r2d_KeysLive s' /\
+  (clock 0 = false -> clock 1 = false -> exists t', nth_error (w_tables s') 2 = Some t' /\ t_free t' = true) /\
+  live s' (7, 0%N) = true /\ tgt s' (7, 0%N) 3 = Some zero_ent.
+Proof.
+  intros clock. destruct r2d_ex_hyps as (HK & Hlk & _ & (t & Ht & Hf & Hl & Hr) & L7 & T7).
+  destruct (D_shrink_spec_clock_w r2d_ex_world clock r2d_ex_St2 Hlk)
+    as (b & s' & last & E & P1 & P2 & P3 & _ & _ & _ & _ & _ & _ & P4 & B1 & B2 & P5 & P6).
+  exists b, s'. split; [exact E|]. split; [exact P1|].
+  split; [apply P6; apply (r2d_keys_live_b_sound _ (proj1 r2d_ex_St2) HK)|].
+  split.
+  - intros C0 C1. destruct (P4 2 t Ht) as (t' & Ht' & (_ & _ & _ & M4 & M5 & _)). exists t'. split; [exact Ht'|].
+    apply (P5 2 t'); [|exact Ht'|rewrite M5, Hr; discriminate|rewrite M4; exact Hl].
+    assert (H2 : 2 < length (w_tables r2d_ex_world)) by (eapply sa_nth_error_lt; exact Ht).
+    destruct B2 as [Hend|Hc]; [lia|].
+    destruct last as [|[|last]]; [congruence|congruence|lia].
   - split; [rewrite (proj1 (P2 (7, 0%N))); exact L7|rewrite (P3 (7, 0%N) 3); exact T7].
 Qed.
 
